@@ -58,10 +58,13 @@ def handleMSA (fs : List (List String)) : Option String :=
          | [m, n] => ((nat! m, nat! n), (fa.toList.map (· == '1'), fb.toList.map (· == '1')))
          | _ => ((0, 0), ([], [])))
       | _ => ((0, 0), ([], []))
-    some ((if progOkb (nat! g) (splitRows seqs) st then "M " else "M! ") ++ rowsStr (progressive (nat! g) (splitRows seqs) st))
+    -- hypotheses of C04_progressive and of C04_progressive_nogap (the gap symbol is no symbol of the input)
+    let okp := progOkb (nat! g) (splitRows seqs) st && (splitRows seqs).all (fun s => !s.contains (nat! g))
+    some ((if okp then "M " else "M! ") ++ rowsStr (progressive (nat! g) (splitRows seqs) st))
   | [["refine"], [g], msa, idxA, fa, fb] =>
     let m := splitRows msa
-    let ok := rectb m && splitOkb (nat! g) m (idxA.map nat!) (fa.map (· == "1")) (fb.map (· == "1"))
+    -- hypotheses of C04_refineSplit and of C04_refineSplit_nogap (distinct row indices)
+    let ok := rectb m && splitOkb (nat! g) m (idxA.map nat!) (fa.map (· == "1")) (fb.map (· == "1")) && decide (idxA.map nat!).Nodup
     some ((if ok then "M " else "M! ") ++ rowsStr (refineSplit (nat! g) m (idxA.map nat!) (fa.map (· == "1")) (fb.map (· == "1"))))
   | [["update"], toks, internal, i2e] =>
     -- tokens as codes (0 = the gap '-'), internal entries 0 = 'X', k = position k-1
